@@ -291,7 +291,7 @@ fn arrays_and_chunks<T: Debug + Clone>(c: &mut Ctx, s: &[T]) {
             }
         )*};
     }
-    arr!(0 1 2 3 4 5 6 7 8 9 10 11 12 16 17);
+    arr!(0 1 2 3 4 5 6 7 8 9 10 11 12 16 17 31 32 33 64 128 255 256 257 1000);
     macro_rules! chunks {
         ($($n:literal)*) => {$(
             {
@@ -311,7 +311,7 @@ fn arrays_and_chunks<T: Debug + Clone>(c: &mut Ctx, s: &[T]) {
             }
         )*};
     }
-    chunks!(1 2 3 4 5 6 7 8 9 11 16 17);
+    chunks!(1 2 3 4 5 6 7 8 9 11 16 17 31 32 33 64 127 128 129 256 512);
 }
 
 fn run_type<T: Debug + Clone + PartialEq + Send + Sync>(cfg: &Cfg, ty: &'static str, mk: &(dyn Fn(usize) -> T + Sync), maxlen: usize) -> Report {
@@ -451,7 +451,7 @@ pub fn run(cfg: &Cfg) -> (&'static str, Report, String, String) {
     (
         "C02",
         rep,
-        format!("all lengths 0..={} x element types u32/()/String/[u8;3]/u64 x all indices and index pairs from I(len) (0..=len+2 plus values around isize::MAX, usize::MAX/size, usize::MAX); array sizes 0..=12,16,17; chunk sizes 1..=9,11,16,17; ZST slices of length isize::MAX-ish..usize::MAX; long slices (31..=257, 1000 elements of u32/u8) with index pairs around the block sizes 8/16/32/64", maxlen),
+        format!("all lengths 0..={} x element types u32/()/String/[u8;3]/u64 x all indices and index pairs from I(len) (0..=len+2 plus values around isize::MAX, usize::MAX/size, usize::MAX); array sizes 0..=12,16,17,31..33,64,128,255..257,1000; chunk sizes 1..=9,11,16,17,31..33,64,127..129,256,512; ZST slices of length isize::MAX-ish..usize::MAX; long slices (31..=257, 1000 elements of u32/u8) with index pairs around the block sizes 8/16/32/64", maxlen),
         "one evaluation = one konst call compared with std (get/get_mut/get_from/get_up_to/get_range/slice_from/slice_up_to/slice_range/split_at and _mut twins, first/last/split_first/split_last _mut, try_into_array(_mut), as_chunks, as_rchunks); compared by address+length (length only for empty results and ZSTs), _mut variants additionally by writing tags through the returned reference; non-trivial = distinct (type,len,start,end) with a non-empty proper sub-slice, (type,len,N) with a successful array conversion or chunks+remainder".into(),
     )
 }
